@@ -1140,6 +1140,20 @@ Proof.
   rewrite Forall_forall in Hlen. apply zip_rows; [exact Hnd|apply Hlen; exact Hrw].
 Qed.
 
+Lemma valid_body_valid_name : forall n, valid_body n = true -> valid_field_name n = true.
+Proof.
+  intros [|ch s] H; [discriminate|]. unfold valid_field_name.
+  destruct (ch =? 95) eqn:E; [|exact H].
+  apply N.eqb_eq in E. subst ch. simpl in H. discriminate.
+Qed.
+
+Lemma valid_header_is_field_names : forall hdr, hdr <> [] ->
+  Forall (fun n => valid_body n = true) hdr -> header_is_field_names R nc isdec hdr = true.
+Proof.
+  intros [|h t] Hne Hv; [contradiction|]. unfold header_is_field_names. apply forallb_forall. intros c Hc.
+  rewrite Forall_forall in Hv. rewrite (normalize_valid_id c (Hv c Hc)). apply valid_body_valid_name. apply Hv. exact Hc.
+Qed.
+
 End Normalize.
 
 (* ------------------------------------------------------------------------------------------ *)
@@ -1175,3 +1189,23 @@ Proof.
     { repeat (destruct p as [p|p|]; try reflexivity). exfalso. apply Hne. reflexivity. }
     rewrite Hm, orb_false_r. reflexivity.
 Qed.
+
+(* ------------------------------------------------------------------------------------------ *)
+(* 8. the reader takes the writer's dialect when the first row consists of field names *)
+
+Theorem reader_delimiter_excel : forall R nc isdec sample sniff term hdr rest,
+  term_ok term -> forallb (cell_ok term) hdr = true ->
+  header_is_field_names R nc isdec hdr = true ->
+  (List.length (write_row 44 term hdr) <= N.to_nat sample)%nat ->
+  reader_delimiter true R nc isdec sample sniff (write_row 44 term hdr ++ rest) = 44.
+Proof.
+  intros R nc isdec sample sniff term hdr rest Ht Hok Hn Hlen. unfold reader_delimiter.
+  rewrite firstn_app, (firstn_all2 _ Hlen).
+  unfold csv_parse. rewrite (row_round_trip 44 eq_refl term hdr _ Ht Hok). simpl first_row. rewrite Hn. reflexivity.
+Qed.
+
+Lemma cells_ok_crlf : forall r : row, forallb (cell_ok CRLF) r = true.
+Proof.
+  intros r. pose proof (rows_ok_crlf [r]) as H. unfold rows_ok in H. simpl in H. rewrite andb_true_r in H. exact H.
+Qed.
+
